@@ -6,6 +6,7 @@ import (
 	"path/filepath"
 	"strings"
 	"sync"
+	"time"
 
 	"golang.org/x/tools/go/packages"
 	"golang.org/x/tools/go/ssa"
@@ -25,6 +26,7 @@ type loaded struct {
 	pkgs map[string]*ssa.Package
 	overlay map[string][]byte
 	overlaySrc map[string]string
+	dirs map[string]string
 }
 
 var buildMu sync.Mutex
@@ -92,7 +94,17 @@ func loadProgram(patterns []string) (*loaded, error) {
 	}
 	pats := append([]string{}, patterns...)
 	pats = append(pats, symPkg)
+	tLoad := time.Now()
 	pkgs, err := packages.Load(cfg, pats...)
+	if os.Getenv("VERIF_TIMING") != "" {
+		fmt.Fprintf(os.Stderr, "packages.Load: %v\n", time.Since(tLoad))
+	}
+	tLoad = time.Now()
+	defer func() {
+		if os.Getenv("VERIF_TIMING") != "" {
+			fmt.Fprintf(os.Stderr, "ssa: %v\n", time.Since(tLoad))
+		}
+	}()
 	if err != nil {
 		return nil, err
 	}
@@ -109,10 +121,13 @@ func loadProgram(patterns []string) (*loaded, error) {
 		return nil, fmt.Errorf("%d package load errors", nerr)
 	}
 	prog, spkgs := ssautil.AllPackages(pkgs, ssa.InstantiateGenerics)
-	ld := &loaded{prog: prog, pkgs: map[string]*ssa.Package{}, overlay: ov}
+	ld := &loaded{prog: prog, pkgs: map[string]*ssa.Package{}, overlay: ov, dirs: map[string]string{}}
 	for i, p := range pkgs {
 		if spkgs[i] != nil {
 			ld.pkgs[p.PkgPath] = spkgs[i]
+			if len(p.GoFiles) > 0 {
+				ld.dirs[p.PkgPath] = filepath.Dir(p.GoFiles[0])
+			}
 			spkgs[i].Build()
 		}
 	}
